@@ -61,6 +61,11 @@ def setup(case, text=None):
         return {"status": "rejected", "msg": str(e)[:200]}
     except exceptions.ConfigurationError as e:
         return {"status": "config_error", "msg": str(e)[:200]}
+    except harness.CpuTimeout:
+        raise
+    except Exception as e:
+        tb = traceback.format_exc()
+        return {"status": "parse_crash", "exc": type(e).__name__, "frame": vsg_frame(tb), "trace": tb[-1200:]}
     return oFile, oRules, a, oConfig
 
 
